@@ -3,6 +3,7 @@
 From Coq Require Import ZArith List.
 From AwkV Require Import Base Layout Valid Types Carry.
 From AwkMerge Require Import Merge Proofs_C08 Proofs_MM Proofs_MML Proofs_Concat Proofs_Simplify Proofs_SU.
+From AwkMerge Require Import Proofs_Astype Proofs_MMU Proofs_SU2 Proofs_SU3 Proofs_SU4 Proofs_MM2 Proofs_MM2t Proofs_MM2b Proofs_MM2c Proofs_MM2d.
 Import ListNotations.
 Open Scope Z_scope.
 
@@ -125,3 +126,200 @@ Theorem astype_only_casts_partial : forall dt dst n data vs c',
               type_of c' = astype_ty dst (type_of (Numpy dt [n] data)).
 Proof. exact astype_numpy_pf. Qed.
 Print Assumptions astype_only_casts_partial.
+
+
+(* ---------------------------------------------------------------- RecordArray operands (Proofs_MM2*.v) *)
+(* (b)+(e) mergemany of record / tuple operands.  Fragment: the first operand has skeleton [s] strictly ([hasS]: a tuple
+   or a record with its keys in the skeleton's order, no duplicate key, fields recursively — nested records / tuples,
+   non-record fields in the has_sk fragment of mergemany_app_partial), every operand has it loosely ([hasL]: the same
+   keys in ANY order; what [trim] = getitem_range_nowrap visits below a record field is [trimmable]); all operands
+   valid and without parameters ([no_par]); [ok2 s]: no option level directly inside an option level.
+   The merge exists (no EOob / EFuel / EValue), is valid, has the skeleton strictly (keys in the first operand's
+   order), and its values are the operands' values in order, each cast by [dcast] at the result's dtype tree
+   [dtree c]: booleans -> 0/1 where the merged leaf type is a number, record fields listed in the result's key
+   order, nothing else (fields longer than their record are trimmed, so no value beyond the record length appears).
+   _partial: records below a list / option node, n-d NumpyArray, strings / parameters (also record names),
+   EmptyArray operands, RegularArray / BitMaskedArray / UnionArray directly as a record field, option-vs-non-option
+   mixtures inside records, and records with a duplicate key (Proofs_MM2d.mergemany_record_dupkeys_refuted: the C++
+   takes the FIRST field of each name, so {x:3, x:4} is concatenated as {x:3, x:3}) are still excluded; the
+   dtype statement (NumPy promotion per leaf) is carried by [dtree c] in the example only, not as a theorem. *)
+Theorem mergemany_records_partial : forall s a others,
+  others <> [] -> ok2 s = true -> hasS s a = true -> Forall (fun c => hasL s c = true) (a :: others) ->
+  Forall (fun c => valid_b c = true) (a :: others) -> Forall (fun c => Proofs_ToList.no_par c = true) (a :: others) ->
+  exists c, mergemany (a :: others) = Ok c /\ hasS s c = true /\ valid_b c = true /\
+            Forall (fun x => to_list x = Ok (vals x)) (a :: others) /\
+            to_list c = Ok (concat (map (fun x => map (dcast (dtree c)) (vals x)) (a :: others))).
+Proof. exact Proofs_MM2d.mergemany_records_partial_pf. Qed.
+Print Assumptions mergemany_records_partial.
+
+(* getitem_range_nowrap(0, q) as used by RecordArray::mergemany on every field: the first q values, valid, same
+   option-likeness ([trimmable] classes: all but RegularArray / BitMaskedArray / UnionArray / parameters) *)
+Theorem trim_takes_prefix : forall c q vs,
+  trimmable c = true -> valid_b c = true -> to_list c = Ok vs -> 0 <= q <= clen c ->
+  exists c', trim q c = Ok c' /\ to_list c' = Ok (take q vs) /\ valid_b c' = true /\ optionlike c' = optionlike c /\
+             keeps c c'.
+Proof. exact Proofs_MM2t.trim_spec_all. Qed.
+Print Assumptions trim_takes_prefix.
+
+
+(* ---------------------------------------------------------------- UnionArray operands (Proofs_MMU.v) *)
+(* (b) UnionArray first: UnionArray::mergemany takes every operand of every node class as it is (a UnionArray
+   contributes its alternatives, an EmptyArray nothing, anything else one more alternative): the merge exists
+   and no value changes.  Hypotheses: operands have values ([tl_ok]), no UnionArray operand is tagged
+   string/bytestring ([u_nostr]; such a layout is never valid, see mergemany_union_first_string_tag_refuted),
+   at most 127 alternatives ([nalts]; more is a ValueError in C++). *)
+Theorem mergemany_union_first : forall a others,
+  is_union a = true -> Forall tl_ok (a :: others) -> forallb u_nostr (a :: others) = true ->
+  sumZ (map nalts (a :: others)) <= 127 ->
+  exists c, mergemany (a :: others) = Ok c /\ to_list c = Ok (concat (map vals (a :: others))) /\ is_union c = true.
+Proof. exact mergemany_union_first_pf. Qed.
+Print Assumptions mergemany_union_first.
+
+(* (e) ... and the result is valid when all operands are (all node classes) *)
+Theorem mergemany_union_first_valid : forall a others c,
+  is_union a = true -> Forall (fun x => valid_b x = true) (a :: others) ->
+  mergemany (a :: others) = Ok c -> valid_b c = true.
+Proof. exact mergemany_union_first_valid_pf. Qed.
+Print Assumptions mergemany_union_first_valid.
+
+(* (b)+(e) UnionArray later: >= 2 operands of one skeleton, then a UnionArray, then anything (reverse_merge +
+   UnionArray::mergemany).  _partial: single-array head and heads outside has_sk are covered by tests only. *)
+Theorem mergemany_union_later_partial : forall s g u rest,
+  (2 <= length g)%nat ->
+  Forall (fun c => has_sk s c = true) g -> Forall (fun c => valid_b c = true) g ->
+  is_union u = true -> Forall tl_ok (u :: rest) -> forallb u_nostr (u :: rest) = true ->
+  1 + sumZ (map nalts (u :: rest)) <= 127 ->
+  let dt := fold_left promote (map leaf_dt g) (leaf_dt (hd Empty g)) in
+  exists c, mergemany (g ++ u :: rest) = Ok c /\ is_union c = true /\
+            to_list c = Ok (concat (map (fun x => map (deep_cast dt) (vals x)) g) ++ concat (map vals (u :: rest))) /\
+            (Forall (fun x => valid_b x = true) (u :: rest) -> valid_b c = true).
+Proof. exact mergemany_union_later_partial_pf. Qed.
+Print Assumptions mergemany_union_later_partial.
+
+(* (d) simplify_uniontype(merge = False) is total on unions of valid alternatives (one level of nesting) that
+   have values; keeps the values; result valid (strengthens simplify_union_value_partial).
+   _partial: a single remaining alternative; merge = True only when nothing is mergeable (used below). *)
+Theorem simplify_union_false_total_partial : forall mb c w tags index cs0 vs,
+  body c = Union w tags index cs0 -> is_strk (fst (params c)) = false ->
+  Forall (fun x => valid_b x = true) cs0 -> (2 <= length (flat_alts cs0))%nat -> zlen (flat_alts cs0) <= 127 ->
+  to_list c = Ok vs ->
+  exists c' t' i', simplify_union false mb c = Ok c' /\ to_list c' = Ok vs /\
+                   c' = mkpar (params c) (Union I64 t' i' (flat_alts cs0)) /\
+                   (fst (params c) = None -> valid_b c' = true).
+Proof. exact Proofs_MMU.simplify_union_false_total_pf. Qed.
+Print Assumptions simplify_union_false_total_partial.
+
+(* "only genuinely different types become a union": two non-mergeable operands of any node class give the
+   union of the two, unchanged, valid, for both values of merge and mergebool *)
+Theorem concat_two_different : forall merge_ mb a b,
+  mergeable mb a b = false -> is_union a = false -> is_union b = false ->
+  valid_b a = true -> valid_b b = true -> tl_ok a -> tl_ok b ->
+  exists t i, concat_model merge_ mb [a; b] = Ok (Union I64 t i [a; b]) /\
+              valid_b (Union I64 t i [a; b]) = true /\ to_list (Union I64 t i [a; b]) = Ok (vals a ++ vals b).
+Proof. exact concat_two_different_pf. Qed.
+Print Assumptions concat_two_different.
+
+(* a mergeable group (one skeleton, >= 2) then one operand of a different type: union {merged group, x} *)
+Theorem concat_group_then_different_partial : forall s merge_ g x,
+  (2 <= length g)%nat ->
+  Forall (fun c => has_sk s c = true) g -> Forall (fun c => valid_b c = true) g ->
+  mergeable true (last g Empty) x = false -> is_union x = false -> valid_b x = true -> tl_ok x ->
+  exists m t i, mergemany g = Ok m /\ has_sk s m = true /\
+    concat_model merge_ true (g ++ [x]) = Ok (Union I64 t i [m; x]) /\
+    valid_b (Union I64 t i [m; x]) = true /\
+    to_list (Union I64 t i [m; x]) = Ok (concat (map (fun y => map (deep_cast (leaf_dt m)) (vals y)) g) ++ vals x).
+Proof. exact concat_group_then_different_partial_pf. Qed.
+Print Assumptions concat_group_then_different_partial.
+
+
+
+(* ---------------------------------------------------------------- simplify_uniontype, wider (Proofs_SU2..4.v) *)
+(* (d) ... the case of a single alternative after flattening (merge = False; any nesting of valid unions): the
+   result is that alternative carried by the rewritten index ([lazy_carry]: a RecordArray is wrapped in an
+   IndexedArray64, every other class is carried eagerly); it is valid, has the union's length, no value changes. *)
+Theorem simplify_union_single : forall mb c w tags index cs0 only vs c',
+  body c = Union w tags index cs0 -> is_strk (fst (params c)) = false ->
+  Forall (fun x => valid_b x = true) cs0 -> flat_alts cs0 = [only] ->
+  to_list c = Ok vs -> simplify_union false mb c = Ok c' ->
+  to_list c' = Ok vs /\ valid_b c' = true /\ clen c' = zlen tags /\
+  exists ix, lazy_carry only ix = Ok c'.
+Proof. exact simplify_union_single_pf. Qed.
+Print Assumptions simplify_union_single.
+
+(* (d) merge = True when no (flattened) alternative is mergeable with one kept before it ([nomerge], any node
+   classes, any nesting of valid unions): exactly the merge = False result, so no value changes *)
+Theorem simplify_union_merge_distinct : forall mb c w tags index cs0 vs c',
+  body c = Union w tags index cs0 -> is_strk (fst (params c)) = false ->
+  Forall (fun x => valid_b x = true) cs0 -> nomerge mb [] (flat_alts cs0) = true ->
+  to_list c = Ok vs -> simplify_union true mb c = Ok c' ->
+  simplify_union false mb c = Ok c' /\ to_list c' = Ok vs /\
+  ((2 <= length (flat_alts cs0))%nat -> exists t' i', body c' = Union I64 t' i' (flat_alts cs0)) /\
+  (forall only, flat_alts cs0 = [only] -> valid_b c' = true /\ exists ix, lazy_carry only ix = Ok c').
+Proof. exact simplify_union_merge_distinct_pf. Qed.
+Print Assumptions simplify_union_merge_distinct.
+
+(* (d) merge = True / False, mergebool = True / False, with merging: un-nested union (1..127 alternatives) whose
+   alternatives are valid layouts with a skeleton (Proofs_MM.has_sk: 1-d numbers / lists / option-indexed
+   levels) such that alternatives with mergeable skeletons have the same skeleton ([su_frag], Proofs_SU3.v).
+   The result EXISTS (no EOob / EFuel / EValue) and every value is the value it was up to the documented cast
+   of booleans to 0/1 ([castrel v v' := exists d, v' = deep_cast d v], element by element).
+   _partial: nested unions with merging, records / strings / n-d / EmptyArray alternatives, alternatives that are
+   mergeable across different skeletons (number with option-of-number: reverse_merge) are covered by the tests
+   only; the dtype [d] of the cast is not tied to the merged alternative's leaf dtype by the theorem. *)
+Theorem simplify_union_merge_partial : forall merge_ mb c w tags index cs0 vs,
+  body c = Union w tags index cs0 -> is_strk (fst (params c)) = false ->
+  Forall (fun x => valid_b x = true) cs0 -> su_frag cs0 = true ->
+  cs0 <> [] -> (length cs0 <= 127)%nat ->
+  to_list c = Ok vs ->
+  exists c' vs', simplify_union merge_ mb c = Ok c' /\ to_list c' = Ok vs' /\ Forall2 castrel vs vs'.
+Proof. exact simplify_union_merge_sk_pf. Qed.
+Print Assumptions simplify_union_merge_partial.
+
+(* ... and when no alternative has boolean leaves nothing changes at all *)
+Theorem simplify_union_merge_nobool_partial : forall merge_ mb c w tags index cs0 vs,
+  body c = Union w tags index cs0 -> is_strk (fst (params c)) = false ->
+  Forall (fun x => valid_b x = true) cs0 -> su_frag cs0 = true -> no_bool_alts cs0 = true ->
+  cs0 <> [] -> (length cs0 <= 127)%nat ->
+  to_list c = Ok vs ->
+  exists c', simplify_union merge_ mb c = Ok c' /\ to_list c' = Ok vs.
+Proof. exact simplify_union_merge_nobool_pf. Qed.
+Print Assumptions simplify_union_merge_nobool_partial.
+
+(* ... and with merge = False on the same fragment the result exists and no value changes (booleans included) *)
+Theorem simplify_union_false_frag_total_partial : forall mb c w tags index cs0 vs,
+  body c = Union w tags index cs0 -> is_strk (fst (params c)) = false ->
+  Forall (fun x => valid_b x = true) cs0 -> su_frag cs0 = true ->
+  cs0 <> [] -> (length cs0 <= 127)%nat ->
+  to_list c = Ok vs ->
+  exists c', simplify_union false mb c = Ok c' /\ to_list c' = Ok vs.
+Proof. exact Proofs_SU4.simplify_union_false_total_pf. Qed.
+Print Assumptions simplify_union_false_frag_total_partial.
+
+(* numbers_to_type through the structural recursion of EVERY node class (n-d NumpyArray, EmptyArray,
+   ListOffsetArray / ListArray / RegularArray, IndexedArray / IndexedOptionArray, ByteMasked / BitMasked (comes
+   back as ByteMasked) / UnmaskedArray, RecordArray (named, tuple, zero fields), strings / bytestrings and
+   parameters): whenever the model succeeds, the result has exactly the values of the specification
+   [astype_spec] (element-wise cast, None / strings untouched) and the type [astype_ty].
+   Fragment [astype_frag] (Proofs_Astype.v): no UnionArray (the specification [astype_v] is undefined —
+   Err EValue — on union types: [astype_union_refuted]); "string"/"bytestring" only on a list node whose
+   content is a NumpyArray tagged "char"/"byte"; no NumpyArray directly tagged "char"/"byte"/"string" outside a
+   string.  No validity of offsets / indexes / masks / lengths is assumed. *)
+Theorem astype_only_casts : forall dst c vs c',
+  astype_frag c = true ->
+  to_list c = Ok vs -> astype_model dst c = Ok c' ->
+  exists vs', to_list c' = Ok vs' /\ astype_spec dst (type_of c) vs = Ok vs' /\ type_of c' = astype_ty dst (type_of c).
+Proof. exact astype_only_casts_pf. Qed.
+Print Assumptions astype_only_casts.
+
+(* every valid layout whose type has no union is in the fragment *)
+Theorem astype_frag_of_valid : forall c,
+  valid_b c = true -> has_union (type_of c) = false -> astype_frag c = true.
+Proof. exact (fun c => valid_nounion_afrag c None). Qed.
+Print Assumptions astype_frag_of_valid.
+
+Theorem astype_only_casts_valid : forall dst c vs c',
+  valid_b c = true -> has_union (type_of c) = false ->
+  to_list c = Ok vs -> astype_model dst c = Ok c' ->
+  exists vs', to_list c' = Ok vs' /\ astype_spec dst (type_of c) vs = Ok vs' /\ type_of c' = astype_ty dst (type_of c).
+Proof. exact astype_only_casts_valid_pf. Qed.
+Print Assumptions astype_only_casts_valid.
